@@ -308,6 +308,22 @@ type RecPM []RecPM
 
 func (r *RecPM) MarshalJSON() ([]byte, error) { return []byte(fmt.Sprintf(`"rec%d"`, len(*r))), nil }
 
+// omitempty fields promoted through an embedded pointer that does not sit at offset 0, at offsets that differ
+// from the pointer's own
+type InnerOmit struct {
+	Pad int    `json:"-"`
+	A   int    `json:"a,omitempty"`
+	B   string `json:"b,omitempty"`
+	C   []int  `json:"c,omitempty"`
+}
+
+type EmbedPtrOmit struct {
+	X int `json:"x"`
+	Y string
+	*InnerOmit
+	Z *int `json:"z,omitempty"`
+}
+
 // structs embedding each other by pointer
 type MutA struct {
 	X int
